@@ -73,6 +73,7 @@ DNAMES = ["sqlite", "postgresql", "mysql", "mssql", "oracle"]
 _HEX = re.compile(r"0x[0-9a-fA-F]+")
 _ANON_ID = re.compile(r"\b\d{9,}\b")
 _ANON_N = re.compile(r"\banon_\d+\b")
+_NUM_SUFFIX = re.compile(r"\b([A-Za-z_]+?)_\d+\b")
 
 
 def _outcome(stmt, dname):
@@ -97,6 +98,14 @@ def _outcome(stmt, dname):
 
 _WLC_BUG = "'LoaderCriteriaOption' object has no attribute '__dict__'"
 _PICKLE_BUG = "'NullType' object has no attribute '_expression_adaptations'"
+
+
+def _anon_norm(out):
+    """compiler-generated names (anon_1, coalesce_2, param_3) with their counter blanked"""
+    if out[0] != "ok":
+        return out
+    f = lambda x: _NUM_SUFFIX.sub(r"\1_N", x)  # noqa: E731
+    return ("ok", f(out[1]), [(f(k), v) for k, v in out[2]] if isinstance(out[2], list) else out[2], [f(p) for p in out[3]] if out[3] is not None else None)
 
 
 def _strip_do(k):
@@ -241,6 +250,7 @@ class Run:
         self.excluded_values = 0
         self.pickle_excluded = 0
         self.clone_key_diffs = 0
+        self.str_none = 0
         self.wlc_excluded = 0
         self.classes = set()
         self.extending_after_sibling = False
@@ -361,7 +371,23 @@ class Run:
             self.rejected += 1
             self.classes.add("rejected-step")
             res = None
+        except TypeError as e:
+            # off-property: filter_by()'s AmbiguousColumnError message calls str() on a FROM entity whose
+            # stand-alone compilation is None (e.g. an alias of a CTE) -> TypeError instead of the intended error
+            if "__str__ returned non-string" not in str(e):
+                raise
+            self.rejected += 1
+            self.str_none += 1
+            res = None
         except AttributeError as e:
+            if _PICKLE_BUG in str(e):
+                # operator applied to an unpickled element with a broken comparator (known finding)
+                if self.case.get("pinned"):
+                    raise Violation("C03/pickle/comparator-type-lost", f"{name}: {e}", observed=repr(e))
+                self.pickle_excluded += 1
+                if not self.quiet:
+                    self.verify_relatives(parent)
+                return
             if _WLC_BUG not in str(e):
                 raise
             # known finding reached through a nested statement (any traversal-based copy: cloned_traverse,
@@ -645,11 +671,39 @@ class Run:
         return fn(n.obj, other.obj), "setop"
 
     def op_params(self, n, rec):
-        names = ["p%d" % i for i in range(0, 12)]
-        return n.obj.params({names[rec["a"] % 12]: self.lit(rec["b"])})
+        from sqlalchemy.sql.elements import BindParameter
+
+        names = []
+        try:
+            for el in visitors.iterate(n.stmt()):
+                if isinstance(el, BindParameter) and not el.unique and el.key not in names:
+                    names.append(el.key)
+        except (sa_exc.SQLAlchemyError, AttributeError):
+            pass
+        self.classes.add("params:named-bind" if names else "params:no-named-bind")
+        name = sorted(names)[rec["a"] % len(names)] if names else "p0"
+        return n.obj.params({name: self.lit(rec["b"])})
 
     # ---------------- compound
     def op_c_order_by(self, n, rec):
+        if type(getattr(n.obj, "_order_by_clauses", None)) is list:
+            # traverse-clone of a CompoundSelect: _order_by_clauses is a (mutable) list
+            if not self.case.get("pinned"):
+                self.excluded_values += 1
+                return self.op_execution_options(n, rec)
+            before = _outcome(n.obj, "default")
+            child = self._op_c_order_by(n, rec)
+            after = _outcome(n.obj, "default")
+            if before != after:
+                raise Violation(
+                    "C03/order_by-after-traverse-clone/compound-list-mutated",
+                    "order_by() on a cloned_traverse / replacement_traverse copy of a CompoundSelect extends the copy's _order_by_clauses list in place "
+                    "(the statement it was called on gains the ORDER BY)", observed=after, expected=before,
+                )
+            return child
+        return self._op_c_order_by(n, rec)
+
+    def _op_c_order_by(self, n, rec):
         cols = list(n.obj.selected_columns)
         return n.obj.order_by(cols[rec["a"] % len(cols)])
 
@@ -977,10 +1031,11 @@ def check_tree(case, ctx):
     for _ in range(obs.pickle_excluded):
         ctx.exclude("pickle copy hits a known pickling finding (C03/pickle/comparator-type-lost or C03/pickle/anon-label-renumbered); replaced by copy.copy")
     for _ in range(obs.excluded_values):
-        ctx.exclude("values() / values([..]) / add_cte() on a traverse-clone replaced (known findings C03/*-after-traverse-clone/*)")
+        ctx.exclude("values() / values([..]) / add_cte() / CompoundSelect.order_by() on a traverse-clone replaced (known findings C03/*-after-traverse-clone/*)")
     for _ in range(obs.wlc_excluded):
         ctx.exclude("cloned_traverse / replacement_traverse of a statement carrying with_loader_criteria() replaced by _clone() (known finding C03/traverse-clone/loader-criteria-slots)")
     ctx.info("clone_with_different_cache_key", obs.clone_key_diffs)
+    ctx.info("filter_by_ambiguity_message_TypeError(off-property)", obs.str_none)
     ctx.info("rejected_steps", obs.rejected)
     ctx.info("nodes", len(obs.nodes))
     # twin: the same program with no compile / access in between
@@ -991,7 +1046,9 @@ def check_tree(case, ctx):
             raise Violation("C03/twin/different-derivation", f"observed run built {len(obs.nodes)} nodes, quiet run {len(twin.nodes)} (a step was accepted in one and rejected in the other)")
         for a, b in zip(obs.nodes, twin.nodes):
             got = _outcome(b.stmt(), "default")
-            if got != a.snap["default"]:
+            # anonymous names are not a stable API: which anon_N a label gets may depend on memoized
+            # anonymous labels of shared elements, so the twin comparison ignores the numbering
+            if _anon_norm(got) != _anon_norm(a.snap["default"]):
                 raise Violation(
                     f"C03/twin/compile-or-access-changed-derivation/{a.how}",
                     f"node {a.idx} ({a.how}) compiles differently when its ancestors were never compiled / inspected before the call",
